@@ -401,6 +401,7 @@ fn main() {
             println!("{}", policyre::batch(&text));
         }
         "methods" => println!("{}", json!(S3_METHODS)),
+        "filled" => println!("{}", json!(FILLED)),
         "xml" => {
             // args: <file.json> = [{"ty":..,"xml":..},..]
             let v: Value = serde_json::from_str(&std::fs::read_to_string(&args[2]).expect("read")).expect("json");
